@@ -73,6 +73,13 @@ def objectives():
         ("-|sum(v)|", ("un", "neg", ("un", "abs", ("sum", v)))), ("p*sum(rev)", ("bin", "*", P_, ("sum", rev))),
         ("sum(v)*sum(v)", ("bin", "*", ("sum", v), ("sum", v))), ("sum(v-w..)", ("sum", ("vbin", "-", ("slice", v, 0, 3, None), W3))),
         ("norm(rev)", ("norm", rev, 2)), ("qform(w)", ("qform", W3, ("arr2", ((1.0, 0, 0), (0, 2.0, 0), (0, 0, 3.0))))),
+        # views that collide on (label, length) but select different elements: x[::5] / x[::4], w[::2] / w[:0:-1]
+        ("sum(v[::4])", ("sum", ("slice", v, None, None, 4))),
+        ("v[::5].v[::4]", ("dot", ("slice", v, None, None, 5), ("slice", v, None, None, 4))),
+        ("sum(v[::5])+c@v[::4]", add(("sum", ("slice", v, None, None, 5)), ("mm", ("arr", (1.0, 2.0, 3.0)), ("slice", v, None, None, 4)))),
+        ("sum(w[::2])", ("sum", ("slice", W3, None, None, 2))),
+        ("w[::2].w[:0:-1]", ("dot", ("slice", W3, None, None, 2), ("slice", W3, None, 0, -1))),
+        ("sum(w[::2]**2)+sum(w[:0:-1])", add(("sum", ("vpow", ("slice", W3, None, None, 2), 2)), ("sum", ("slice", W3, None, 0, -1)))),
         ("frob(S)", ("frob", S)), ("x10**x9", ("bin", "**", x10, x9)), ("2**x9+x10", add(("bin", "**", c(2), x9), x10)),
         ("s/t", ("bin", "/", s_, t_)), ("exp(s)**t", ("bin", "**", ("un", "exp", s_), ("un", "sin", t_))),
     ]
@@ -90,6 +97,10 @@ def constraints():
         ("const-only", ("cmp", "<=", ("C", 1.0), c(2))), ("param-con", ("cmp", "<=", ("sum", v), P_)),
         ("dot-con", ("cmp", "<=", ("dot", v, v), c(4))), ("row-con", ("cmp", "==", ("sum", ("row", M, 0, None, None, None)), c(1))),
         ("elem-con", ("cmp", "<=", ("idx", v, 10), ("idx", v, 9))),
+        ("view-step4", ("cmp", "<=", ("sum", ("slice", v, None, None, 4)), c(1))),
+        ("view-step5", ("cmp", ">=", ("sum", ("slice", v, None, None, 5)), c(0))),
+        ("w-rev-open", ("cmp", "<=", ("sum", ("slice", W3, None, 0, -1)), c(2))),
+        ("w-step2", ("cmp", ">=", ("mm", ("arr", (1.0, -1.0)), ("slice", W3, None, None, 2)), c(0))),
     ]
 
 
